@@ -357,6 +357,7 @@ VerdictW(W, adds, e, cl, pk, res, dep, anyErr, refusedAfter, bundleOK, x) ==
       w12 == (IF anyErr /\ bundleOK THEN { <<"bundle-from-failed-build">> } ELSE {})
              \cup (IF anyErr /\ ~refusedAfter THEN { <<"builder-usable-after-error">> } ELSE {})
              \cup (IF ~faultfree /\ ~anyErr THEN { <<"failure-not-reported">> } ELSE {})
+             \cup (IF expectErr /\ ~anyErr THEN { <<"error-of-the-analysis-not-reported">> } ELSE {})
              \cup (IF x.early_open > 0 THEN { <<"directory-under-construction-opens-as-bundle">> } ELSE {})
              \cup (IF x.diags_ok THEN {} ELSE { <<"finder-diagnostic-lost-or-altered">> })
       \* C13: the bundle is a function of its inputs
